@@ -169,6 +169,10 @@ type CqlClientConnection struct {
 	ctx                context.Context
 	cancel             context.CancelFunc
 	payloadAccumulator *payloadAccumulator
+
+	// channelsLock guards the closing of the outgoing channel: senders hold the read lock while they check that the
+	// connection is not closed and enqueue (without blocking); Close closes the channel under the write lock.
+	channelsLock sync.RWMutex
 }
 
 func newCqlClientConnection(
@@ -522,6 +526,11 @@ func (c *CqlClientConnection) Send(f *frame.Frame) (InFlightRequest, error) {
 	if inFlight, err := c.inFlightHandler.onOutgoingFrameEnqueued(f); err != nil {
 		return nil, fmt.Errorf("%v: failed to register in-flight handler for frame: %v: %w", c, f, err)
 	} else {
+		c.channelsLock.RLock()
+		defer c.channelsLock.RUnlock()
+		if c.IsClosed() {
+			return nil, fmt.Errorf("%v: connection closed", c)
+		}
 		select {
 		case c.outgoing <- f:
 			log.Debug().Msgf("%v: outgoing frame successfully enqueued: %v", c, f)
@@ -603,11 +612,12 @@ func (c *CqlClientConnection) Close() (err error) {
 		log.Debug().Msgf("%v: closing", c)
 		c.cancel()
 		err = c.conn.Close()
-		outgoing := c.outgoing
+		// the outgoing field is not set to nil, it is read by Send and by the outgoing loop
+		c.channelsLock.Lock()
+		close(c.outgoing)
+		c.channelsLock.Unlock()
 		events := c.events
-		c.outgoing = nil
 		c.events = nil
-		close(outgoing)
 		close(events)
 		c.inFlightHandler.close()
 		c.waitGroup.Wait()
